@@ -10,12 +10,15 @@ A table is a dict (JSON-serialisable, no SUT types):
    "rules": [{"in": [test...], "out": [lit...], "ann": [str...]}]}
 
 literal  lit  = ["n", "12.50"] | ["s", "text"] | ["b", true]
+              | ["date", "2020-02-29"] | ["dt", "2020-02-29T10:00:00"] | ["dtd", "-P1DT2H"] | ["ym", "P1Y2M"]   (input columns only)
 unary test    = ["-"] | ["lit", lit] | ["cmp", op, lit] | ["iv", lo_closed, lo_lit, hi_lit, hi_closed, alt_brackets]
               | ["or", [simple...]] | ["not", [simple...]]           (simple = lit/cmp/iv test)
 
 Texts: `words(test)` gives the unbreakable pieces of the FEEL text (a drawing may put a line break between two pieces,
 XML joins them with one space).
 """
+import datetime
+import re
 from decimal import Decimal
 
 HIT_POLICIES = ["U", "A", "P", "F", "R", "O", "C", "C+", "C<", "C>", "C#"]
@@ -27,7 +30,89 @@ SUT_HIT_POLICY = {"U": ("UNIQUE", None), "A": ("ANY", None), "P": ("PRIORITY", N
                   "R": ("RULE ORDER", None), "O": ("OUTPUT ORDER", None), "C": ("COLLECT LIST", "LIST"),
                   "C+": ("COLLECT SUM", "SUM"), "C<": ("COLLECT MIN", "MIN"), "C>": ("COLLECT MAX", "MAX"),
                   "C#": ("COLLECT COUNT", "COUNT")}
-TYPE_REF = {"num": "number", "str": "string", "bool": "boolean"}
+TYPE_REF = {"num": "number", "str": "string", "bool": "boolean", "date": "date", "dt": "dateTime", "dtd": "dayTimeDuration",
+            "ym": "yearMonthDuration"}
+TEMPORAL = ("date", "dt", "dtd", "ym")
+
+
+class Tv:
+    """A temporal input value: kind + integer key (day number / second of the local time line / seconds / months) + its FEEL text.
+    Values of one kind are totally ordered by the key; values of different kinds are never compared (dtable_ref._same_kind)."""
+    __slots__ = ("kind", "key", "text")
+
+    def __init__(self, kind, key, text):
+        self.kind, self.key, self.text = kind, key, text
+
+    def __eq__(self, o):
+        return isinstance(o, Tv) and o.kind == self.kind and o.key == self.key
+
+    def __ne__(self, o):
+        return not self.__eq__(o)
+
+    def __lt__(self, o):
+        return self.key < o.key
+
+    def __le__(self, o):
+        return self.key <= o.key
+
+    def __gt__(self, o):
+        return self.key > o.key
+
+    def __ge__(self, o):
+        return self.key >= o.key
+
+    def __hash__(self):
+        return hash((self.kind, self.key))
+
+    def __str__(self):
+        return "%s:%d" % (self.kind, self.key)
+
+    __repr__ = __str__
+
+
+_DTD = re.compile(r"^(-?)P(?:(\d+)D)?(?:T(?:(\d+)H)?(?:(\d+)M)?(?:(\d+)S)?)?$")
+_YM = re.compile(r"^(-?)P(?:(\d+)Y)?(?:(\d+)M)?$")
+
+
+def temporal_key(kind, text):
+    if kind == "date":
+        return datetime.date.fromisoformat(text).toordinal()
+    if kind == "dt":
+        d = datetime.datetime.fromisoformat(text)
+        return d.toordinal() * 86400 + d.hour * 3600 + d.minute * 60 + d.second
+    if kind == "dtd":
+        m = _DTD.match(text)
+        v = int(m.group(2) or 0) * 86400 + int(m.group(3) or 0) * 3600 + int(m.group(4) or 0) * 60 + int(m.group(5) or 0)
+        return -v if m.group(1) else v
+    m = _YM.match(text)
+    v = int(m.group(2) or 0) * 12 + int(m.group(3) or 0)
+    return -v if m.group(1) else v
+
+
+def temporal_text(kind, key, variant=0):
+    """FEEL lexical form of the value with that key; variant 1 = a non-normalised spelling of a duration (PT36H, P14M)."""
+    if kind == "date":
+        return datetime.date.fromordinal(key).isoformat()
+    if kind == "dt":
+        d, sec = divmod(key, 86400)
+        return "%sT%02d:%02d:%02d" % (datetime.date.fromordinal(d).isoformat(), sec // 3600, sec // 60 % 60, sec % 60)
+    sign, v = ("-" if key < 0 else ""), abs(key)
+    if kind == "dtd":
+        if variant and v % 3600 == 0 and v:
+            return "%sPT%dH" % (sign, v // 3600)
+        d, r = divmod(v, 86400)
+        h, r = divmod(r, 3600)
+        mi, sec = divmod(r, 60)
+        t = "".join("%d%s" % (x, u) for x, u in ((h, "H"), (mi, "M"), (sec, "S")) if x)
+        if not d and not t:
+            return "PT0S"
+        return sign + "P" + ("%dD" % d if d else "") + ("T" + t if t else "")
+    if variant and v:
+        return "%sP%dM" % (sign, v)
+    y, mo = divmod(v, 12)
+    if not y and not mo:
+        return "P0M"
+    return sign + "P" + ("%dY" % y if y else "") + ("%dM" % mo if mo else "")
 
 INPUT_NAMES = ["x", "y", "Age", "Order size", "Customer kind", "Risk", "total amount due", "k9", "Region code", "Delivery",
                "Weight kg", "Member level", "score_1", "w"]
@@ -50,6 +135,12 @@ def lit_text(l):
         return v
     if k == "s":
         return '"%s"' % v
+    if k == "date":
+        return 'date("%s")' % v
+    if k == "dt":
+        return 'date and time("%s")' % v
+    if k in ("dtd", "ym"):
+        return 'duration("%s")' % v
     return "true" if v else "false"
 
 
@@ -168,6 +259,8 @@ def wire(v):
         return {"n": format(v, "f")}
     if isinstance(v, str):
         return {"s": v}
+    if isinstance(v, Tv):
+        return {"feel": lit_text([v.kind, v.text])}
     raise ValueError(v)
 
 
@@ -175,6 +268,8 @@ def lit_value(l):
     k, v = l
     if k == "n":
         return Decimal(v)
+    if k in TEMPORAL:
+        return Tv(k, temporal_key(k, v), v)
     return v
 
 
@@ -207,6 +302,24 @@ def gen_number(src, neg_ok=True):
     return v
 
 
+def gen_temporal(src, kind):
+    """text of a temporal literal: values close to each other (days / seconds / months apart) so that comparisons have near misses"""
+    if kind == "date":
+        return temporal_text(kind, datetime.date(2020, 2, 27).toordinal() + src.weighted([(4, src.int(0, 5)), (2, src.int(-400, 400)), (1, src.int(-200000, 200000))]))
+    if kind == "dt":
+        base = datetime.date(2021, 12, 31).toordinal() * 86400 + 86390
+        return temporal_text(kind, base + src.weighted([(4, src.int(0, 20)), (2, src.int(-90000, 90000)), (1, src.int(-10 ** 9, 10 ** 9))]))
+    if kind == "dtd":
+        key = src.weighted([(3, src.int(-3, 3) * 3600), (3, src.int(-5, 5) * 86400 + src.int(0, 2) * 3600), (2, src.int(-100000, 100000)), (1, 0)])
+        return temporal_text(kind, key, variant=1 if src.bool(0.3) else 0)
+    key = src.weighted([(4, src.int(-30, 30)), (2, src.int(-3, 3) * 12), (1, src.int(-5000, 5000)), (1, 0)])
+    return temporal_text(kind, key, variant=1 if src.bool(0.3) else 0)
+
+
+def gen_temporal_default(kind):
+    return {"date": "2020-02-29", "dt": "2021-12-31T23:59:59", "dtd": "PT0S", "ym": "P0M"}[kind]
+
+
 def gen_pool(src, kind, lo=2, hi=4, neg_ok=True):
     """Distinct literals of one kind (the points around which a column's entries are written)."""
     n = src.int(lo, hi)
@@ -219,6 +332,10 @@ def gen_pool(src, kind, lo=2, hi=4, neg_ok=True):
         if kind == "num":
             l = ["n", gen_number(src, neg_ok)]
             if any(Decimal(x[1]) == Decimal(l[1]) for x in out):
+                continue
+        elif kind in TEMPORAL:
+            l = [kind, gen_temporal(src, kind)]
+            if any(lit_value(x) == lit_value(l) for x in out):
                 continue
         else:
             l = ["s", src.choice(STRINGS)]
@@ -236,7 +353,7 @@ def gen_simple(src, kind, pool, allow_neg_endpoint):
     """lit / cmp / iv over the pool."""
     if kind == "bool":
         return ["lit", src.choice(pool)]
-    shape = src.weighted([(5, "lit"), (3, "cmp"), (3, "iv")]) if kind == "num" else src.weighted([(8, "lit"), (1, "cmp"), (1, "iv")])
+    shape = src.weighted([(5, "lit"), (3, "cmp"), (3, "iv")]) if (kind == "num" or kind in TEMPORAL) else src.weighted([(8, "lit"), (1, "cmp"), (1, "iv")])
 
     def endpoint_ok(l):
         return allow_neg_endpoint or not (l[0] == "n" and l[1].startswith("-"))
@@ -257,7 +374,7 @@ def gen_simple(src, kind, pool, allow_neg_endpoint):
 def gen_entry(src, kind, pool, allow_neg_endpoint):
     if kind == "bool":
         shape = src.weighted([(3, "-"), (6, "lit"), (1, "or"), (1, "not")])
-    elif kind == "num":
+    elif kind == "num" or kind in TEMPORAL:
         shape = src.weighted([(3, "-"), (9, "simple"), (2, "or"), (2, "not")])
     else:
         shape = src.weighted([(3, "-"), (7, "simple"), (3, "or"), (2, "not")])
@@ -285,7 +402,7 @@ def gen_annotation_text(src):
 
 
 def gen_table(src, max_inputs=4, max_outputs=3, min_rules=0, max_rules=8, max_annotations=0, drawable=False,
-              hp=None, neg_endpoint_rate=0.04):
+              hp=None, neg_endpoint_rate=0.04, temporal=False):
     """drawable: >=1 rule, allowed values all-or-nothing, no default output entries."""
     hp = hp or src.choice(HIT_POLICIES)
     ni = src.int(1, max_inputs)
@@ -299,6 +416,8 @@ def gen_table(src, max_inputs=4, max_outputs=3, min_rules=0, max_rules=8, max_an
     inputs, pools = [], []
     for j in range(ni):
         kind = src.weighted([(5, "num"), (4, "str"), (1, "bool")])
+        if temporal and src.bool(0.22):
+            kind = src.choice(TEMPORAL)
         pool = gen_pool(src, kind)
         pools.append(pool)
         have_values = all_values if drawable else src.bool(0.3)
@@ -381,6 +500,8 @@ def gen_table(src, max_inputs=4, max_outputs=3, min_rules=0, max_rules=8, max_an
 def is_drawable(T):
     if not T["rules"]:
         return False
+    if any(c["kind"] in TEMPORAL for c in T["inputs"]):
+        return False
     flags = [c["values"] is not None for c in T["inputs"]] + [c["values"] is not None for c in T["outputs"]]
     if any(flags) and not all(flags):
         return False
@@ -425,6 +546,18 @@ def boundary_points(T, j):
                 add(["n", format(w, "f")])
         add(["n", format(min(vals) - 1000, "f")])
         add(["n", format(max(vals) + 1000, "f")])
+        return out
+    if kind in TEMPORAL:
+        keys = [temporal_key(l[0], l[1]) for l in lits if l[0] == kind] or [temporal_key(kind, gen_temporal_default(kind))]
+        for l in lits:
+            if l[0] == kind:
+                add(l)                                # the spelling used in the table
+        for v in keys:
+            for w in (v, v - 1, v + 1):
+                add([kind, temporal_text(kind, w)])
+        far = 1000 if kind != "dt" else 10 ** 7
+        add([kind, temporal_text(kind, min(keys) - far)])
+        add([kind, temporal_text(kind, max(keys) + far)])
         return out
     svals = [l[1] for l in lits if l[0] == "s"] or ["a"]
     for s in svals:
